@@ -53,7 +53,7 @@ theorem prefix_append_extract (out inp : Bytes) (cur lit : Nat) (hp : IsPrefix o
     have h1 : cur + (i - out.size) = i := by omega
     have h2 : i - out.size < cur + lit - cur := by omega
     have h3 : i - out.size < min (cur + lit) inp.size - cur := by omega
-    simp [Array.getElem?_extract, h1, h3]
+    simp [h1, h3]
 
 theorem goForward_cur (inp : Bytes) (dict : Array Nat) (cur n : Nat) :
     (goForward inp dict cur n).2 = cur + n := by
@@ -305,6 +305,15 @@ theorem off_bytes (o : Nat) (h : o < 65536) :
   rw [UInt8.toNat_ofNat_of_lt' (by show _ < 256; omega), UInt8.toNat_ofNat_of_lt' (by show _ < 256; omega)]
   omega
 
+theorem takeN_append (a r : List UInt8) : takeN a.length (a ++ r) = some (a, r) := by
+  induction a with
+  | nil => simp [takeN]
+  | cons b a ih => simp [takeN, ih]
+
+theorem takeN_self (a : List UInt8) : takeN a.length a = some (a, []) := by
+  have := takeN_append a []
+  simpa using this
+
 theorem decLoop_last (f : Nat) (b : Block) (out : Bytes) (h : b.dup = none) :
     decLoop (f+1) (serBlock b) out = .ok (out ++ b.lits.toArray) := by
   unfold serBlock
@@ -313,7 +322,7 @@ theorem decLoop_last (f : Nat) (b : Block) (out : Bytes) (h : b.dup = none) :
   unfold decLoop
   have := litLen_mkTok b.lits.length 0 b.lits
   rw [this]
-  simp
+  simp [takeN_self]
 
 theorem decLoop_dup (f : Nat) (b : Block) (d : Dup) (tail : List UInt8) (out : Bytes)
     (h : b.dup = some d) (ho : d.offset < 65536) :
@@ -328,8 +337,7 @@ theorem decLoop_dup (f : Nat) (b : Block) (d : Dup) (tail : List UInt8) (out : B
     (b.lits ++ (UInt8.ofNat (d.offset % 256) :: UInt8.ofNat (d.offset / 256) :: (lenHdr d.ext ++ tail)))
   rw [h1]
   have h2 := matchLen_mkTok b.lits.length d.ext tail
-  simp only [List.length_append, List.length_cons, List.take_left', List.drop_left',
-    Nat.not_lt_of_le (Nat.le_add_right _ _), if_false, h2, off_bytes d.offset ho]
+  simp only [takeN_append, h2, off_bytes d.offset ho]
 
 def WF : List Block → Prop
   | [] => False
